@@ -4,7 +4,7 @@
 (* connection.go NewConnection).  An address is a sequence of tokens;      *)
 (* ":" ";" "@" are tokens of their own, P R N H PORT BADH PORTX are        *)
 (* placeholders the driver concretises (absolute path, relative path,      *)
-(* abstract name, 127.0.0.1, [::1] (H6), a free port, an unresolvable host, a *)
+(* abstract name, an abstract name with path-like segments (N2: x//y/./z/../w/), 127.0.0.1, [::1] (H6), a free port, an unresolvable host, a *)
 (* non-numeric port).  ParseAddr is the specification's reading of a       *)
 (* string; TLC enumerates strings x histories and judges what the real     *)
 (* Bind / DoListen / Shutdown / NewConnection were observed to do.         *)
@@ -18,7 +18,7 @@ EXTENDS Integers, Sequences, FiniteSets, FiniteSetsExt, SequencesExt, TLC, Json
 CONSTANT Dev
 
 Protos == {"unix", "tcp", "UNIX", "unixpacket", "unixgram", "tcp4", "udp", "xyz", ""}
-Rests == {<<>>, <<"@">>, <<"@", "N">>, <<"R">>, <<"P">>, <<"H", ":", "PORT">>, <<":", "PORT">>, <<"localhost", ":", "PORT">>,
+Rests == {<<>>, <<"@">>, <<"@", "N">>, <<"@", "N2">>, <<"R">>, <<"P">>, <<"H", ":", "PORT">>, <<":", "PORT">>, <<"localhost", ":", "PORT">>,
           <<"H6", ":", "PORT">>,      \* an IPv6 literal in brackets ([::1]); the driver skips the case on a machine without IPv6 loopback
           <<"H">>, <<"BADH", ":", "PORT">>, <<"H", ":", "PORTX">>}
 Tails == {<<>>, <<";">>, <<";", "mode=0600">>, <<";", "a", ";", "b">>, <<";", "x", ":", "y">>}
